@@ -486,8 +486,37 @@ func checkPerHandReset(c *Ctx, lc *lifecycle) {
 			hdr := iv.Phi.Block()
 			body := loopBodyHead(hdr)
 			if body == nil || ss.Instr.Block() != body {
-				d = "per-player reset of " + pf + " can be skipped inside the loop body"
-				continue
+				// the reset may be skipped for a player whose record already equals what it is reset to
+				// (if stats == NewStats() { continue }) — and for nothing else
+				onlyWhenEqual := body != nil
+				loop := naturalLoop(hdr)
+				nIn := 0
+				for _, g := range p.Guards(ss.Instr) {
+					if g.If == nil || !loop[g.If.Block()] || g.If.Block() == hdr {
+						continue
+					}
+					nIn++
+					cs := g.Cond.Strip()
+					same := false
+					if cs.Kind == "binop" && (cs.Name == "==" || cs.Name == "!=") && len(cs.Args) == 2 {
+						l, r := cs.Args[0].Strip(), cs.Args[1].Strip()
+						if r.Kind != "call" {
+							l, r = r, l
+						}
+						v := ss.Val.Strip()
+						if r.Kind == "call" && len(r.Args) == 0 && v.Kind == "call" && r.Call.Common().StaticCallee() != nil && r.Call.Common().StaticCallee() == v.Call.Common().StaticCallee() &&
+							l.Kind == "field" && l.Name == pf && l.Args[0].Strip().String() == pl.String() && g.Val == (cs.Name == "!=") {
+							same = true
+						}
+					}
+					if !same {
+						onlyWhenEqual = false
+					}
+				}
+				if !onlyWhenEqual || nIn == 0 {
+					d = "per-player reset of " + pf + " can be skipped inside the loop body"
+					continue
+				}
 			}
 			switch pf {
 			case "Positions":
